@@ -260,6 +260,13 @@ func mutateURL(r *prng.R, u string) string {
 var methodsOddCase = [][]string{{"get"}, {"Post"}, {"get", "POST"}, {"GET", "get"}, {"delete"}, {"pAtCh", "PUT"}}
 
 func genMethods(r *prng.R) []string {
+	if r.Chance(10) {
+		// exactly the default list of GetSupportedMethods, spelled out (in any order): NOT the same filter as one
+		// without a method list, which accepts every method
+		ms := append([]string(nil), methodsDflt...)
+		prng.Shuffle(r, ms)
+		return ms
+	}
 	if r.Chance(12) {
 		return append([]string(nil), prng.Pick(r, methodsOddCase)...)
 	}
@@ -370,6 +377,8 @@ func genFlowsCase(r *prng.R) []string {
 		var p string
 		if i == 0 || r.Chance(30) {
 			p = genPattern(r, k)
+		} else if r.Chance(25) {
+			p = pats[r.Intn(len(pats))] // several features on ONE URL: their method lists decide the grouping
 		} else {
 			p = derive(r, pats[r.Intn(len(pats))], k)
 		}
@@ -377,6 +386,9 @@ func genFlowsCase(r *prng.R) []string {
 			p = prng.Pick(r, []string{"*", ".*"})
 		}
 		ms := genMethods(r)
+		if i > 0 && r.Chance(15) {
+			ms = nil
+		}
 		pats = append(pats, p)
 		methods = append(methods, ms)
 		ops = append(ops, fmt.Sprintf("flow name=f%d url=%s methods=%s", i+1, proto.Enc(p), encMethods(ms)))
